@@ -159,7 +159,8 @@ class _OpaqueBackend:
 
 
 @contract("C08", "O3.energy_estimation.structure", level="S", native_samples=lambda st, rnd, tier: [{"E": -1.1, "f0": 0.3, "f1": 0.05, "coeff": 0.7}],
-          structures=lambda tier: [{"ref": r, "proj": p, "ndefl": d} for r in (False, True) for p in (False, True) for d in (0, 1, 2)],
+          structures=lambda tier: [{"ref": r, "proj": p, "ndefl": d, "narrow": nw} for r in (False, True) for p in (False, True) for d in (0, 1, 2)
+                                   for nw in ((False, True) if d else (False,))],
           targets=[(VQ, "VQESolver.energy_estimation")])
 def o3(h, st):
     """with the compute backend opaque: energy_estimation(theta) updates the ansatz with theta, asks the backend for the expectation value of the solver's Hamiltonian
@@ -175,7 +176,8 @@ def o3(h, st):
     s.build()
     w = s.ansatz.circuit.width
     s.backend = _OpaqueBackend(E, fs)
-    s.deflation_circuits = [Circuit([Gate("X", k)], n_qubits=w) for k in range(st["ndefl"])]
+    # a deflation circuit may address fewer qubits than the ansatz (narrow): the overlap is still the all-zero outcome of the whole register
+    s.deflation_circuits = [Circuit([Gate("X", k)], n_qubits=None if st.get("narrow") else w) for k in range(st["ndefl"])]
     s.deflation_coeff = coeff
     s.ref_state = [1, 0, 0, 0] if st["ref"] else None
     s.reference_circuit = Circuit([Gate("X", 0)], n_qubits=w) if st["ref"] else Circuit()
